@@ -43,13 +43,22 @@ def log(msg):
     print(msg, flush=True)
 
 
+def _limit_memory():
+    # a run-away engine process (a mutated search that never ends keeps filling its unbounded cache) must not take the machine down
+    try:
+        import resource
+        resource.setrlimit(resource.RLIMIT_AS, (12 << 30, 12 << 30))
+    except Exception:
+        pass
+
+
 def run(cmd, timeout, cwd=None, env=None, input=None):
     e = dict(os.environ)
     if env:
         e.update(env)
     try:
         p = subprocess.run(cmd, cwd=cwd, env=e, input=input, capture_output=True, text=True,
-                           timeout=timeout)
+                           timeout=timeout, preexec_fn=_limit_memory if cmd and cmd[0] == ENGINE else None)
         return p.returncode, p.stdout, p.stderr
     except subprocess.TimeoutExpired as ex:
         so = ex.stdout.decode() if isinstance(ex.stdout, bytes) else (ex.stdout or "")
